@@ -203,6 +203,15 @@ Inductive par_lat_loop (sc : pscc) (St : rel -> list nat) :
 | pll_step : forall T D R R' N' Tf Rf,
     par_lat_iteration sc St T D R R' N' true -> par_lat_loop sc St (merge T D) N' R' Tf Rf -> par_lat_loop sc St T D R Tf Rf.
 
+(* the iteration starts the loop can reach: (total, delta, rows) after 0, 1, 2, ... iterations *)
+Inductive par_lat_loop_reach (sc : pscc) (St : rel -> list nat) :
+  (rel -> list nat) -> (rel -> list nat) -> (rel -> list (vtuple V)) ->
+  (rel -> list nat) -> (rel -> list nat) -> (rel -> list (vtuple V)) -> Prop :=
+| pre_here : forall T D R, par_lat_loop_reach sc St T D R T D R
+| pre_next : forall T D R R' N' ch' T2 D2 R2,
+    par_lat_iteration sc St T D R R' N' ch' -> par_lat_loop_reach sc St (merge T D) N' R' T2 D2 R2 ->
+    par_lat_loop_reach sc St T D R T2 D2 R2.
+
 (* compile_mir_scc; the tick counter of lstate (argument of the serial model's iteration-order oracles) is not used *)
 Definition par_lat_run_scc (sc : pscc) (st st' : @lstate V) : Prop :=
   let dyn := s_dyn sc in
